@@ -700,7 +700,7 @@ def pattern_subi32(context, tree, c0, c1):
     "reg",
     "ADDI32(reg, CONSTI32)",
     size=1,
-    condition=lambda t: t.children[1].value < 256,
+    condition=lambda t: -256 <= t.children[1].value < 256,
 )
 def pattern_addi32_1(context, tree, c0):
     d = context.new_reg(RiscvRegister)
@@ -713,7 +713,7 @@ def pattern_addi32_1(context, tree, c0):
     "reg",
     "ADDI32(CONSTI32, reg)",
     size=1,
-    condition=lambda t: t.children[0].value < 256,
+    condition=lambda t: -256 <= t.children[0].value < 256,
 )
 def pattern_addi32_2(context, tree, c0):
     d = context.new_reg(RiscvRegister)
